@@ -86,7 +86,17 @@ impl<'a, D: DataT> Ctx<'a, D> {
 
     /// Add a new filter binding.
     fn cons_fun(mut self, (f, ctx): (Id, Self)) -> Self {
-        self.vars.0 = self.vars.0.cons(Bind::Fun((f, ctx.vars)));
+        // if `f` is itself a filter argument, then pass it on as it is;
+        // otherwise, recursive calls that hand on their filter arguments
+        // would build a chain of closures that grows with every call
+        let fun = match &ctx.lut().terms[f.0] {
+            Ast::Var(v) => match ctx.vars.get(*v) {
+                Some(Bind::Fun(fun)) => Some(fun.clone()),
+                _ => None,
+            },
+            _ => None,
+        };
+        self.vars.0 = self.vars.0.cons(Bind::Fun(fun.unwrap_or((f, ctx.vars))));
         self
     }
 
